@@ -19,6 +19,7 @@ func init() {
 		ruleM3(c, "C19.M3")
 		ruleA1(c, "C19.M4")
 		ruleW2(c, "C19.M5")
+		ruleM6(c, "C19.M6")
 	}
 }
 
@@ -500,4 +501,106 @@ func relatedAll(related func(ssa.Value) bool, vs []ssa.Value) bool {
 		}
 	}
 	return false
+}
+
+// ruleM6: a transaction whose size is chosen by the client must be known to
+// fit in the log before it is begun.  A transaction the journal refuses is not
+// only answered SERVERFAULT: go-journal forgets, on a refused commit, how far
+// NFSPROC3_COMMIT has to flush, and unstable data acknowledged by the next
+// COMMIT is lost by a crash (D39, the unbounded SYMLINK target).  Every
+// Inode.Write in a handler (or in a helper it calls) whose byte count comes
+// from the request - a count field, or the length of a request field - is
+// dominated by a comparison of that same quantity with a constant that does
+// not exceed the advertised wtmax.
+func ruleM6(c *Ctx, id string) {
+	V, P, R := c.V, c.P, c.R
+	R.Rule(id, "request-sized transactions fit in the log: every Inode.Write reached from a handler with a byte count taken from the request (a count field or the length of a request field) is dominated by a comparison of that quantity with a constant <= wtmax", 2)
+	fi := c.fn(id, "nfs.(*Nfs).NFSPROC3_FSINFO")
+	if fi == nil || V.InodeWrite == nil {
+		return
+	}
+	wtmax, _, _, ok := storedConst(fi, "Wtmax")
+	if !ok {
+		R.Undecided(id, "FSINFO|Wtmax", P.Pos(fi.Pos()), "Wtmax is a constant", "not a constant store")
+		return
+	}
+	// the request quantity v stands for: "Count"-like field path, or len of a field path
+	qkey := func(v ssa.Value, sub Subst, req *ssa.Parameter) string {
+		v = sub.resolve(stripConv(v))
+		for i := 0; i < 4; i++ {
+			cv, isC := v.(*ssa.Convert)
+			if !isC {
+				break
+			}
+			v = sub.resolve(stripConv(cv.X))
+		}
+		if cl, ok := v.(*ssa.Call); ok {
+			if bi, isB := cl.Call.Value.(*ssa.Builtin); isB && bi.Name() == "len" && len(cl.Call.Args) == 1 {
+				a := sub.resolve(stripConv(cl.Call.Args[0]))
+				if cv, isC := a.(*ssa.Convert); isC { // []byte(string)
+					a = sub.resolve(stripConv(cv.X))
+				}
+				if pm, path := canonPath(a, sub); pm == req && path != "" {
+					return "len:" + path
+				}
+			}
+			return ""
+		}
+		if pm, path := canonPath(v, sub); pm == req && path != "" {
+			return path
+		}
+		return ""
+	}
+	n := 0
+	for _, h := range V.NfsProcs {
+		req := requestParam(h)
+		if req == nil {
+			continue
+		}
+		hsc := scopesOf(h)
+		for _, sc := range hsc {
+			for _, call := range P.CallsIn(sc.Fn, funcIs(V.InodeWrite)) {
+				cc := callCommon(call)
+				if cc == nil || len(cc.Args) < 5 {
+					continue
+				}
+				q := qkey(cc.Args[3], sc.S, req)
+				if q == "" {
+					continue // not sized by the request (a constant, an encoder's output)
+				}
+				n++
+				R.Analysed[FuncName(h)] = true
+				g := guardedUp(hsc, sc, call.Block(), func(sub Subst) func(Cond) (bool, bool) {
+					return func(cd Cond) (bool, bool) {
+						if cd.X == nil || cd.Y == nil {
+							return false, false
+						}
+						op, a, b := cd.Op, cd.X, cd.Y
+						if _, isk := constIntDeep(a); isk {
+							op, a, b = flipOp(op), b, a
+						}
+						k, isk := constIntDeep(b)
+						if !isk || k > wtmax || qkey(a, sub, req) != q {
+							return false, false
+						}
+						switch op {
+						case token.GTR:
+							return true, false
+						case token.LEQ:
+							return true, true
+						case token.GEQ:
+							return k-1 <= wtmax, false
+						case token.LSS:
+							return k-1 <= wtmax, true
+						}
+						return false, false
+					}
+				})
+				R.Check(g, id, fmt.Sprintf("%s|Write sized by %s is bounded", h.Name(), q), P.Pos(call.Pos()), fmt.Sprintf("the request quantity %s is compared with a constant <= wtmax (%d) before the write", q, wtmax), "guard dominates", fmt.Sprintf("the client chooses how many bytes (%s) one transaction writes and nothing bounds it: a request larger than the log is refused by the journal, and after a refused commit COMMIT flushes nothing and still answers OK - acknowledged unstable data is lost by a crash", q))
+			}
+		}
+	}
+	if n == 0 {
+		R.Fail(id, "handlers|request-sized writes", "", "WRITE and SYMLINK write a client-chosen number of bytes", "no Inode.Write with a request-derived count found in the handlers")
+	}
 }
